@@ -485,6 +485,21 @@ def r16c(P, R):
                        "(names filtered: %s)" % (d, sorted(v for _, v, _ in compared)), loc=rb.loc())
         else:
             R.undecided("R16-c", "covered:%s" % d, "%s does not filter by comparing names with literals; not decided" % rb.name, loc=rb.loc())
+    # what is removed is decided by *name*.  The remover is shared by the SDL route and the introspection route, and on the latter
+    # every node carries the same (built-in) position: a decision that reads a field of a source position removes or keeps whole
+    # kinds of definitions on one route only.
+    POSN = "nitrogql_ast::base::Pos"
+    for g in rscope:
+        pos_reads = sorted({n["field"] for n in g.walk() if n.get("k") == "Field" and norm(n.get("adt")) == POSN}
+                           | {f_["name"] for n in g.walk() if n.get("k") == "Struct" and "rest" in n and norm(n.get("pat_adt") or n.get("def") or "") == POSN
+                              for f_ in n["fields"] if f_["p"].get("k") != "Wild"})
+        if pos_reads:
+            R.violated("R16-c", "position-independent:" + short(g.path), "%s reads `Pos.%s` while deciding what to strip from the server schema: positions say "
+                       "where a node was written, not whether it is nitrogql-only — a schema loaded by introspection has the built-in position on every "
+                       "node, so user definitions are removed (or nitrogql-only ones kept) on that route; the predicate has to compare names with %s"
+                       % (g.path, ", Pos.".join(pos_reads), sorted(defined)), loc=g.loc())
+        else:
+            R.holds("R16-c", "position-independent:" + short(g.path), "no source position takes part in what is stripped", loc=g.loc())
     # everything but the named directive survives: the remover visits every definition and every directive application
     lossless_traversal(P, R, "R16-c", rscope, "definitions / directive applications")
     # the server schema is printed from remove_builtins(..) into a JsStringWriter — in run_generate or a helper it calls.  A print
